@@ -64,11 +64,40 @@ func computeFlow(c *Ctx, s FlowSpec) (*FlowTable, string, error) {
 	ft := &FlowTable{Func: s.Func, Cfg: s.Cfg}
 	set := map[string]bool{}
 	rets := map[string]bool{}
+	// calls made inside small unexported helpers count for the caller (parameters substituted), so
+	// that extracting lines into a helper does not change the recorded data flow
+	var expand func(f *ssa.Function, args []string, depth int)
+	expand = func(f *ssa.Function, args []string, depth int) {
+		hd := apo.NewDescriber(f)
+		for _, b := range f.Blocks {
+			for _, in := range b.Instrs {
+				ci, ok := in.(ssa.CallInstruction)
+				if !ok || !re.MatchString(apo.CalleeName(ci.Common())) {
+					continue
+				}
+				set[apo.SubstParams(hd.CallDesc(ci.Common()), args)] = true
+				if g := ci.Common().StaticCallee(); depth < 2 && !ci.Common().IsInvoke() && apo.Inlinable(g) && g != f && g != fn {
+					var as []string
+					for _, a := range ci.Common().Args {
+						as = append(as, apo.SubstParams(hd.Val(a), args))
+					}
+					expand(g, as, depth+1)
+				}
+			}
+		}
+	}
 	for _, b := range fn.Blocks {
 		for _, in := range b.Instrs {
 			if ci, ok := in.(ssa.CallInstruction); ok && s.Callee != "" {
 				if re.MatchString(apo.CalleeName(ci.Common())) {
 					set[d.CallDesc(ci.Common())] = true
+					if g := ci.Common().StaticCallee(); !ci.Common().IsInvoke() && apo.Inlinable(g) && g != fn {
+						var as []string
+						for _, a := range ci.Common().Args {
+							as = append(as, d.Val(a))
+						}
+						expand(g, as, 1)
+					}
 				}
 			}
 			if r, ok := in.(*ssa.Return); ok && s.Ret {
@@ -255,7 +284,7 @@ func CheckFlow(c *Ctx, prop string, specs []FlowSpec, readsOf []string) {
 		}
 		has := func(list []string, s string) bool {
 			for _, x := range list {
-				if x == s {
+				if x == s || wildMatch(s, x) {
 					return true
 				}
 			}
